@@ -312,7 +312,8 @@ class Ctx:
                 return project(t, b.proj)
             if b.kind == "let" and not b.mut and b.init is not None and b.v not in self.addr_mut:
                 t = self.term(b.init, subst)
-                return project(t, b.proj)
+                if subst is not None or self._let_inlinable(b, t, n):
+                    return project(t, b.proj)
             return ("var", n["v"])
         if k == "Field":
             bt = self.term(n["e"], subst)
@@ -400,6 +401,40 @@ class Ctx:
         if k == "Macro":
             return ("macro", n.get("name"), n["id"])
         return ("expr", k, n.get("id"))
+
+    def _let_inlinable(self, b, t, use):
+        """An immutable `let x = e` may be replaced by e's term at a use only if nothing e reads can change
+        between the let and that use (textually between them, or in a loop around the use that excludes the let)."""
+        from .guards import term_roots, _pos, _affected_term
+        roots = term_roots(t)
+        if not roots:
+            return True
+        lp, up = _pos(b.node), _pos(use)
+        use_loops = [a for a in _anc(use) if a.get("k") in ("For", "While", "Loop")]
+        let_anc = set(id(a) for a in _anc(b.node))
+        outer_loops = [L for L in use_loops if id(L) not in let_anc]
+        for root in roots:
+            for kind, m in self.mutations.get(root, []):
+                if not _affected_term(t, root, kind):
+                    continue
+                mp = _pos(m)
+                if any(a is m for a in _anc(use)) and m.get("k") in ("Assign", "AssignOp"):
+                    continue    # read inside the right-hand side of the assignment itself
+                if lp < mp < up:
+                    return False
+                if outer_loops:
+                    m_anc = set(id(a) for a in _anc(m))
+                    if any(id(L) in m_anc for L in outer_loops):
+                        return False
+        return True
+
+    def def_term(self, var):
+        """Term of the initialiser of a let-bound local (evaluated at the let), or None."""
+        if var and var[0] == "var":
+            b = self.binds.get(var[1])
+            if b is not None and b.kind == "let" and b.init is not None and not b.proj:
+                return self.term(b.init)
+        return None
 
     def _ok_payload(self, call, subst):
         """`x.degree()?` / `.unwrap()`: if the callee has a single Ok(..) path, return its payload term."""
